@@ -3,6 +3,7 @@ import TrackVerif.Driver.Dec
 import TrackVerif.TA.Driver
 import TrackVerif.Conv.Driver
 import TrackVerif.GP.Driver
+import TrackVerif.GPMF.Driver
 /-
   Line-protocol driver.  One case per input line:
       AREA op arg… => impl-output-tokens…
@@ -31,6 +32,7 @@ def dispatch (line : String) : String :=
     | "TA" => TA.Driver.handle args impl
     | "CV" => Conv.Driver.handle args impl
     | "GP" => GP.Driver.handle args impl
+    | "GM" => GPMF.Driver.handle args impl
     | _ => "BAD"
 
 partial def loop (h : IO.FS.Stream) (out : IO.FS.Stream) : IO Unit := do
